@@ -923,3 +923,71 @@ Section Coords.
       destruct Hin as [<-|[]], Hkz as [<-|[]]. contradiction.
   Qed.
 End Coords.
+
+(* ================================================================ _xarray_dataset: outputs without MapSpec *)
+Lemma dset_da_names d a n : In n (map da_name (dset_da d a)) -> n = da_name a \/ In n (map da_name d).
+Proof.
+  induction d as [|a0 d IH]; cbn.
+  - intros [<-|[]]. now left.
+  - destruct (str_eqb (da_name a) (da_name a0)) eqn:E; cbn.
+    + intros [<-|H]; [now left|right; now right].
+    + intros [<-|H]; [right; now left|]. destruct (IH H); auto.
+Qed.
+
+Lemma dset_fold_names arrays : forall acc n,
+  In n (map da_name (fold_left dset_da arrays acc)) -> In n (map da_name acc) \/ In n (map da_name arrays).
+Proof.
+  induction arrays as [|a arrays IH]; intros acc n H; cbn [fold_left] in H; [now left|].
+  destruct (IH _ _ H) as [H'|H']; [|right; now right].
+  apply dset_da_names in H' as [->|H']; [right; now left|now left].
+Qed.
+
+(* unmapped_outputs_plain: an output that no MapSpec declares is assigned as a plain variable
+   (`ds[name] = array if isinstance(array, np.ndarray) else ((), array)`), never as a labelled DataArray,
+   and conversely every plain variable is an output without MapSpec *)
+Theorem unmapped_outputs_plain specs inputs outputs li ds :
+  dataset_vars specs inputs outputs li = Ok ds ->
+  (forall o, In o outputs -> ~ In o (out_names specs) ->
+     In o (ds_plain ds) /\ ~ In o (map da_name (ds_arrays ds)) /\ ~ In o (ds_dropped ds))
+  /\ (forall o, In o (ds_plain ds) -> In o outputs /\ ~ In o (out_names specs)).
+Proof.
+  unfold dataset_vars. fold (out_names specs).
+  set (mon := filter (fun n => mem_str n outputs) (out_names specs)).
+  destruct (mapM _ mon) as [arrays|e] eqn:A; [|discriminate]. cbn [bind]. intros [= <-]. cbn.
+  assert (Hmon : forall n, In n mon <-> In n (out_names specs) /\ In n outputs).
+  { intros n. unfold mon. now rewrite filter_In, mem_str_In. }
+  assert (Hnames : map da_name arrays = mon).
+  { clear Hmon. revert arrays A. generalize mon. induction mon0 as [|o mon0 IH]; intros arrays A; cbn in A.
+    - now injection A as <-.
+    - destruct (coords_of specs inputs outputs li o); cbn in A; [|discriminate].
+      destruct (dims_of specs o); cbn in A; [|discriminate].
+      destruct (mapM _ mon0) as [ys|] eqn:E; cbn in A; [|discriminate].
+      injection A as <-. cbn. f_equal. now apply IH. }
+  assert (Hda : forall n, In n (map da_name (fold_left dset_da arrays [])) -> In n (out_names specs)).
+  { intros n H. apply dset_fold_names in H as [[]|H]. rewrite Hnames in H. now apply Hmon in H. }
+  split.
+  - intros o Ho Hno. repeat split.
+    + apply filter_In. split; [assumption|]. apply negb_true_iff, mem_str_false. intros H. apply Hmon in H. tauto.
+    + intros H. apply in_map_iff in H as [a [<- H]]. apply filter_In in H as [H _].
+      apply Hno, Hda. apply in_map_iff. now exists a.
+    + intros H. apply filter_In in H as [H _]. now apply Hno, Hda.
+  - intros o H. apply filter_In in H as [Ho H]. split; [assumption|].
+    apply negb_true_iff, mem_str_false in H. intros Hin. apply H, Hmon. auto.
+Qed.
+
+(* ================================================================ selecting by coordinate value *)
+Lemma pos_of_nth l : forall n v, NoDup l -> nth_error l n = Some v -> pos_of v l = Some n.
+Proof.
+  induction l as [|y l IH]; intros n v Hnd Hn; [now destruct n|].
+  inversion Hnd as [|? ? Hy Hd]; subst. destruct n as [|n]; cbn in Hn |- *.
+  - injection Hn as ->. now rewrite str_eqb_refl.
+  - assert (str_eqb v y = false) as ->.
+    { apply str_eqb_neq. intros ->. apply Hy. now apply nth_error_In with n. }
+    now rewrite (IH n v Hd Hn).
+Qed.
+
+(* with distinct coordinate values, selecting by the n-th value is positional selection of index n *)
+Theorem sel_label_nth {A} (a : nd A) q labels n v :
+  NoDup labels -> nth_error labels n = Some v ->
+  sel_label a q labels v = nd_index a (slice_key (length (shp a)) q n).
+Proof. intros Hnd Hn. unfold sel_label. now rewrite (pos_of_nth _ _ _ Hnd Hn). Qed.
